@@ -1475,4 +1475,9 @@ impl StoryState {
     pub(crate) fn reset_errors(&mut self) {
         self.current_errors.clear();
     }
+
+    pub(crate) fn reset_errors_and_warnings(&mut self) {
+        self.current_errors.clear();
+        self.current_warnings.clear();
+    }
 }
